@@ -168,7 +168,7 @@ static void cmd_session(const kv_t& kv) {
     auto cmds = split(get(kv, "cmds"), ',');
     bool first = true;
     for (auto& c : cmds) {
-        bool acc = false; std::string err, exc;
+        bool acc = false; std::string err, exc, msg;
         if (c == "s") {
             // as fn_step: refused at end
             if (inst.env->done) acc = false; else { acc = inst.step(); if (!acc) err = inst.error_string(); }
@@ -179,11 +179,16 @@ static void cmd_session(const kv_t& kv) {
             auto toks = split(c.substr(2), '+');
             std::vector<std::string> ts; for (auto& t : toks) ts.push_back(unhx_s(t));
             std::vector<char*> av; for (auto& t : ts) av.push_back((char*)t.c_str());
+            // what `exec` prints for the user goes to stderr: capture it (the message is part of C16's "reports the same error")
+            fflush(stderr);
+            int fe = memfd_create("evalerr", 0); int save2 = dup(2); dup2(fe, 2);
             try { acc = inst.eval(av.size(), av.data()); if (!acc) err = ScriptErrorString(*inst.env->serror); }
             catch (std::exception& e) { acc = false; exc = e.what(); if (exc.empty()) exc = "?"; }
+            fflush(stderr); dup2(save2, 2); close(save2);
+            { char b[2048]; lseek(fe, 0, SEEK_SET); ssize_t n = read(fe, b, sizeof b - 1); if (n > 0) msg.assign(b, n); close(fe); }
         }
         if (!first) o << ","; first = false;
-        o << "{\"c\":\"" << c[0] << "\",\"acc\":" << acc << ",\"err\":\"" << jesc(err) << "\",\"exc\":\"" << jesc(exc) << "\",\"d\":"; dump(o, inst.env); o << "}";
+        o << "{\"c\":\"" << c[0] << "\",\"acc\":" << acc << ",\"err\":\"" << jesc(err) << "\",\"exc\":\"" << jesc(exc) << "\",\"msg\":\"" << jesc(msg) << "\",\"d\":"; dump(o, inst.env); o << "}";
     }
     o << "]";
     if (geti(kv, "finish", 0)) {
